@@ -32,7 +32,7 @@ PROFILE_T = gen.Profile("schedules", weights=W, max_steps=11, max_rows=16, n_tab
 
 def systematic(tier):
     cs = templates.c01_cases(tier)
-    return cs if tier == "thorough" else cs[::2]
+    return cs if tier == "thorough" else cs[::3]
 
 
 def strategy(tier):
@@ -43,7 +43,7 @@ def strategy(tier):
 
 
 def n_random(tier):
-    return 700 if tier == "quick" else 30000
+    return 500 if tier == "quick" else 30000
 
 
 def _prio_random(graph, seed):
